@@ -12,6 +12,7 @@ import (
 	"net"
 	"strings"
 	"sync"
+	"time"
 
 	"golang.org/x/net/dns/dnsmessage"
 )
@@ -42,7 +43,10 @@ func Install(z Zone) {
 	net.DefaultResolver.Dial = func(ctx context.Context, network, address string) (net.Conn, error) {
 		c, s := net.Pipe()
 		go serve(s)
-		return c, nil
+		// the Go resolver puts a wall-clock deadline (5 s per attempt) on every exchange and retries when it
+		// passes: on a starved machine that would turn into repeated queries or failed lookups in the middle of
+		// an exploration. The in-process exchange cannot get lost, so it simply has no deadline.
+		return noDeadline{c}, nil
 	}
 }
 
@@ -71,6 +75,12 @@ func ResetQueries() {
 	queries = map[string]int{}
 	mu.Unlock()
 }
+
+type noDeadline struct{ net.Conn }
+
+func (noDeadline) SetDeadline(time.Time) error      { return nil }
+func (noDeadline) SetReadDeadline(time.Time) error  { return nil }
+func (noDeadline) SetWriteDeadline(time.Time) error { return nil }
 
 func serve(c net.Conn) {
 	defer c.Close()
